@@ -52,6 +52,9 @@ REC = [
 def gen_case(task, i):
     st = task["stream"]
     r = rng(seed_env(), ID, st, i)
+    from .. import gen_text
+
+    rec = REC + [x for x in gen_text.RECURSION if x not in REC]
     if st == "echo":
         src = gen_shapes.echo_program(r)
     elif st == "tail":
@@ -59,7 +62,7 @@ def gen_case(task, i):
     elif st.startswith("defect:void_tail_value"):
         src = gen_shapes.echo_program(r, dict(void_tail_value=True))
     elif st == "recursion":
-        return dict(src=HEADER + REC[i % len(REC)], stream=st, expect="rejected", vectors=_vectors(r)[:: 2 if i % 2 else 1])
+        return dict(src=HEADER + rec[i % len(rec)], stream=st, expect="rejected", vectors=_vectors(r)[:: 2 if i % 2 else 1])
     elif st == "corpus":
         src = workload.corpus_case(i)["src"]
     else:
